@@ -176,6 +176,56 @@ theorem C08_history_old_witness :
     w2 = [1, 1, 1] ∧ dataRow w2 [true, true] (25 / 4) = .ok [3000, 6000] := by
   decide +kernel
 
+/-! ## sharing: one configuration object listed for several sections of one document -/
+
+/-- Whatever body objects the sections of a multi-section document share (`rtf_body=[body] * n`, any pattern of
+references into the store `objs`), every section holds the widths resolved from ITS object as the user configured it
+and ITS OWN column count, and no object of the store is written. -/
+theorem C08_sections_shared (objs : List (Option (List Rat))) (secs : List (Nat × Nat)) :
+    constructSections objs secs = (secs.map fun s => resolveBody (objAt objs s.1) s.2, objs) := by
+  induction secs generalizing objs with
+  | nil => rfl
+  | cons s rest ih =>
+    obtain ⟨r, n⟩ := s
+    have hset : objs.set r (objAt objs r) = objs := by
+      apply List.ext_getElem?
+      intro i
+      by_cases hi : r = i
+      · subst hi
+        by_cases hr : r < objs.length
+        · simp [objAt, hr]
+        · simp [hr]
+      · simp [hi]
+    simp [constructSections, construct, hset, ih]
+
+/-- … so the widths of section `j` depend only on that section's own object and column count: not on the other
+sections, their column counts, or on which of them list the same object. -/
+theorem C08_section_widths_own (objs : List (Option (List Rat))) (secs : List (Nat × Nat)) (j r n : Nat)
+    (h : secs[j]? = some (r, n)) :
+    (constructSections objs secs).1[j]? = some (resolveBody (objAt objs r) n) := by
+  rw [C08_sections_shared]
+  simp [List.getElem?_map, h]
+
+/-- and every row kind of every such section ends at `twip W`: `C08_section` applies to each section with the widths the
+construction hands it (`Section.userW` = the shared object's vector, `Section.ncol` = the section's own count). -/
+theorem C08_sections_shared_rows (objs : List (Option (List Rat))) (secs : List (Nat × Nat)) (j r n : Nat)
+    (h : secs[j]? = some (r, n)) (s : Section) (hu : s.userW = objAt objs r) (hn : s.ncol = n) (hwf : WFSection s) :
+    (constructSections objs secs).1[j]? = some (resolveBody s.userW s.ncol) ∧
+    ∃ rows, sectionRows s = .ok rows ∧ (∀ row ∈ rows, row.2.getLast? = some (twip s.W)) ∧
+      checkRows 0 s.W (bodyProcessed (resolveBody s.userW s.ncol) s.keep) rows = [] := by
+  refine ⟨?_, C08_section s hwf⟩
+  rw [hu, hn]
+  exact C08_section_widths_own objs secs j r n h
+
+/-- What resolving once per DISTINCT object would do (not the code): one width-less body listed for a 4-column and a
+2-column section hands the second section four widths; its data rows stop at half of W. -/
+theorem C08_sections_memo_witness :
+    constructSectionsMemo [none] [] [(0, 4), (0, 2)] = [[1, 1, 1, 1], [1, 1, 1, 1]] ∧
+    dataRow [1, 1, 1, 1] [true, true] (25 / 4) = .ok [2250, 4500] ∧
+    (constructSections [none] [(0, 4), (0, 2)]).1 = [[1, 1, 1, 1], [1, 1]] ∧
+    dataRow [1, 1] [true, true] (25 / 4) = .ok [4500, 9000] := by
+  decide +kernel
+
 /-! ## non-vacuity -/
 
 /-- 4 columns `[2, 1, 1.5, 0.5]`, the first removed by page_by, default header + explicit spanning
